@@ -711,6 +711,92 @@ def check_once(run: Run, prog: Program, st: Stream) -> None:
     ok = st.x.x(st.loop.iter) == f"{RECV}[{st.comp_p}]"
     run.check(ok, "C20.ONCE", hs.qual, "the (re)started stream task continues the cached receiver",
               "a restarted stream task does not continue the component's cached API receiver", node=hs.node, file=hs.file)
+    check_cancel_ends_task(run, prog, st)
+
+
+def _stream_task_frames(prog: Program, st: Stream) -> list[FuncInfo]:
+    """The coroutines that run *inside* the stream task: run_forever, _handle_data_stream and, transitively,
+    every closure / private method they await directly (the fan-out runs in its own task and is not one)."""
+    hs = st.hs
+    frames: list[FuncInfo] = [hs]
+    rf = prog.resolve_name(hs.module, "run_forever")
+    if isinstance(rf, FuncInfo):
+        frames.insert(0, rf)
+    fan = {id(f.node) for _c, f, _b in st.fan_calls}
+    i = 0
+    while i < len(frames) and len(frames) < 40:
+        fr = frames[i]
+        i += 1
+        if fr.module is not hs.module:
+            continue
+        top = fr
+        while top.outer is not None:
+            top = top.outer
+        nested = {n.name: n for n in ast.walk(top.node) if isinstance(n, (ast.FunctionDef, ast.AsyncFunctionDef)) and n is not top.node}
+        for a in walk_own(fr.node):
+            if not (isinstance(a, ast.Await) and isinstance(a.value, ast.Call)):
+                continue
+            c = a.value
+            tgt: FuncInfo | None = None
+            if isinstance(c.func, ast.Name) and c.func.id in nested:
+                tgt = FuncInfo(c.func.id, top.module, nested[c.func.id], None, top)
+            elif _is_self_call(c) and top.cls is not None:
+                tgt = prog.resolve_method(top.cls, c.func.attr)  # type: ignore[union-attr]
+            if tgt is not None and id(tgt.node) not in fan and all(tgt.node is not f.node for f in frames):
+                frames.append(tgt)
+    return frames
+
+
+def check_cancel_ends_task(run: Run, prog: Program, st: Stream) -> None:
+    """Cancel-then-register only works if cancelling the old stream task really ends it: at every
+    suspension point of the task, a CancelledError propagates out of every frame.  A handler that can
+    catch it (CancelledError / BaseException / bare except) around an await must re-raise it on all paths."""
+    for fr in _stream_task_frames(prog, st):
+        if fr.outer is None:
+            run.analysed(fr.qual)
+        cfg = CFG(fr.node, fr.file)
+        wit = None
+        what = ""
+        for n in cfg.nodes:
+            if n.ast is None or not cfg.is_await(n.id):
+                continue
+            for m, lab in cfg.succ[n.id]:
+                if lab != "exc:C" or cfg.nodes[m].kind != "handler":
+                    continue
+                handler = cfg.nodes[m].ast
+                region = cfg.reachable([m])
+                inside = {id(x) for b in handler.body for x in ast.walk(b)}  # type: ignore[union-attr]
+                converts = [r for r in region if isinstance(cfg.nodes[r].ast, ast.Raise) and id(cfg.nodes[r].ast) in inside
+                            and cfg.nodes[r].ast.exc is not None  # type: ignore[union-attr]
+                            and u(cfg.nodes[r].ast.exc) != (handler.name or "") # type: ignore[union-attr]
+                            and "CancelledError" not in u(cfg.nodes[r].ast.exc)]  # type: ignore[union-attr]
+                if cfg.exit in region:
+                    wit = wit or [(n.id, ""), (m, "exc:C"), *(cfg.path(m, [cfg.exit]) or [])[1:]]
+                    what = what or f"`{cfg.nodes[m].text(60)}` swallows a cancellation delivered at line {n.lineno}"
+                elif converts:
+                    wit = wit or [(n.id, ""), (m, "exc:C"), (converts[0], "...")]
+                    what = what or f"`{cfg.nodes[m].text(60)}` turns a cancellation delivered at line {n.lineno} into another error"
+        sup = [w for w in walk_own(fr.node) if isinstance(w, (ast.With, ast.AsyncWith)) and any(
+            isinstance(it.context_expr, ast.Call) and u(it.context_expr.func).split(".")[-1] == "suppress"
+            and any(("CancelledError" in u(a) or "BaseException" in u(a)) for a in it.context_expr.args) for it in w.items)
+            and any(isinstance(x, (ast.Await, ast.AsyncFor, ast.AsyncWith)) for b in w.body for x in [b, *walk_own(b)])]
+        if sup and not what:
+            what = f"`with suppress(...)` at line {sup[0].lineno} swallows a cancellation delivered inside it"
+        run.check(not what, "C20.ONCE", fr.qual, "a cancellation delivered at any await ends the stream task",
+                  "cancelling the previous stream task does not end it: the task keeps consuming from the component's "
+                  "shared API receiver with its old senders while its successor is already registered (it is no longer "
+                  f"in comp_data_tasks, so nothing cancels it later) - {what}", node=fr.node, file=fr.file,
+                  path=cfg.describe_path(wit), instance=f"{fr.qual} :: cancellation at any await propagates")
+        if fr.name == "run_forever" and fr.outer is None and fr.cls is None:
+            # the wrapper really runs the stream coroutine, again and again
+            cb = fr.params[0] if fr.params else ""
+            runs = [x for x in nodes_with_call(cfg, lambda c: isinstance(c.func, ast.Name) and c.func.id == cb and not c.args)
+                    if cfg.is_await(x)]
+            heads = [w.id for w in cfg.nodes if w.kind == "while"]
+            ok = bool(runs) and len(heads) == 1 and cfg.path(cfg.entry, [cfg.exit], edge_ok=_normal) is None and all(
+                cfg.path(s2, heads, avoid=runs, edge_ok=_normal) is None for s2 in branch(cfg, heads[0], "true") if s2 not in runs)
+            run.check(ok, "C20.ONCE", fr.qual, "run_forever awaits its callable in every round and never returns",
+                      "the wrapper of the stream task does not (re)run the stream coroutine", node=fr.node, file=fr.file)
 
 
 # ======================================================================================== C20.DEDUP
@@ -1046,6 +1132,10 @@ CONTROLS = [
     ("request list not created before the scan", SRC,
      "        self._req_streaming_metrics.setdefault(comp_id, {}).setdefault(\n            request.metric_id, []\n        )\n",
      "", "C20.DEDUP"),
+    ("cancellation swallowed at the clean-up wait", SRC,
+     "                done, pending = await asyncio.wait(sending_tasks, timeout=0)\n",
+     "                try:\n                    done, pending = await asyncio.wait(sending_tasks, timeout=0)\n"
+     "                except (asyncio.CancelledError, Exception):\n                    return sending_tasks\n", "C20.ONCE"),
     ("validator registers no receiver", SRC,
      "            self.comp_data_receivers[comp_id] = (\n                await connection_manager.get().api_client.ev_charger_data(comp_id)\n            )",
      "            await connection_manager.get().api_client.ev_charger_data(comp_id)", "C20.ONCE"),
